@@ -508,7 +508,12 @@ structure Expo where
 def isIdStart (c : Char) : Bool := c.isAlpha || c == '_'
 def isIdChar (c : Char) : Bool := c.isAlphanum || c == '_'
 
-/-- skip a numeric literal (`12`, `1.5`, `1e-05`, `2.5E+3`, `1j`) -/
+/-- the imaginary suffix of a Python complex literal (`1e-07j`) -/
+def dropJ : List Char → List Char
+  | 'j' :: rest => rest
+  | s => s
+
+/-- skip a numeric literal (`12`, `1.5`, `1e-05`, `2.5E+3`, `1j`, `1e-07j`) -/
 def skipNumber (s : List Char) : List Char :=
   let s1 := s.dropWhile (fun c => isDigit c || c == '.')
   match s1 with
@@ -516,8 +521,8 @@ def skipNumber (s : List Char) : List Char :=
     if c == 'e' || c == 'E' then
       match rest with
       | d :: rest' =>
-        if isDigit d then rest'.dropWhile isDigit
-        else if (d == '+' || d == '-') then rest'.dropWhile isDigit
+        if isDigit d then dropJ (rest'.dropWhile isDigit)
+        else if (d == '+' || d == '-') then dropJ (rest'.dropWhile isDigit)
         else s1
       | [] => s1
     else if c == 'j' then rest
